@@ -6,7 +6,10 @@ def plan(tier):
     conds = [
         Cond("vf.h.h_shift", "h_range", case=0, timeout=100, label="H20-range"),
         Cond("vf.h.h_shift", "h_sched", case=0, timeout=100, label="H20-sched"),
-        Cond("vf.h.h_shift", "h_drv", case=0, timeout=600, label="H20-drv", weight=20),
+        Cond("vf.h.h_shift", "h_drv", case=0, timeout=600, label="H20-drv[v0 idle]", weight=20),
+        Cond("vf.h.h_shift", "h_drv", case=1, timeout=600, label="H20-drv[v0 carrying a passenger]", weight=20),
+        Cond("vf.h.h_shift", "h_drv", case=2, timeout=600, label="H20-drv[v0 charging]", weight=20),
+        Cond("vf.h.h_shift", "h_drv", case=3, timeout=600, label="H20-drv[v0 en route to a request]", weight=20),
         Cond("vf.h.h_shift", "h_step_shift", case=0, timeout=600, label="H20-step-at-shift-boundary", weight=20),
         Cond("vf.h.h_disp", "h_disp_shift", case=0, timeout=600, env={"VF_ORACLE": "C20"}, label="H20-disp[no fleets]", weight=20),
         Cond("vf.h.h_disp", "h_disp_shift", case=2, timeout=600, env={"VF_ORACLE": "C20"}, label="H20-disp[two fleets]", weight=20),
